@@ -226,6 +226,7 @@ RULE = (
     "Oracle: identities on totals / common factor / hue direction computed in L1-normalised coordinates, and the largest admissible common "
     "factor by LP (max t: c + t (chromaticity - c) in the hull of the normalised gamut vertices), membership by LP. Non-trivial = a contraction "
     "(some target outside the chromatic gamut), a dichromat, or a zero row; every L1-scaling case."
+    " Both scalings run on one estimator, each twice, with the public state of the estimator byte-compared before and after."
 )
 
 PROP = Prop(
